@@ -349,6 +349,15 @@ def load_known_findings():
     return {"findings": [], "fixed": []}
 
 
+def listed_finding(pid, signature):
+    """text of the finding of property pid with this signature if known_findings.json lists it (a
+    failure is only ever suppressed by an entry of that committed file), else None"""
+    for f in load_known_findings().get("findings", []):
+        if f.get("property") == pid and f.get("signature") == signature:
+            return f.get("text") or signature
+    return None
+
+
 def write_replay(pid, seed, n, payload):
     os.makedirs(REPLAYS, exist_ok=True)
     path = os.path.join(REPLAYS, "%s-%s-%d.json" % (pid, seed, n))
